@@ -167,6 +167,35 @@ def cache_table(fb):
             return NOT
         mc = Machine(fb, intercept=icpt, max_visits=8, budget=500)
         key = scenario if fkind == "AST" else scenario + "/native-factory"
+        if scenario == "first" and "imported_library" in fields:
+            # the same while loads are in progress, as get_library is reached from an import declaration: the library's own mark is set
+            # during the first request; a second request comes while ANOTHER library is being loaded (a later import set of the same
+            # declaration, or the body of that other library importing this one).  One instance, built once.
+            ipi = fields.index("imported_library")
+            selfv2 = fresh_fields(fb)
+            selfv2[fields.index("libraries")] = Map()
+            selfv2[fields.index("lib_loader")] = [factories]
+            marks = Map()
+            marks.d[machine.key_of(name)] = (name, [])
+            selfv2[ipi] = marks
+            ev0 = len(ev)
+            try:
+                r1 = mc.run(f, [selfv2, located])
+                cur = absint.deref(selfv2[ipi])
+                if isinstance(cur, Map):
+                    cur.d.clear()
+                    cur.d[machine.key_of(other)] = (other, [])
+                else:
+                    raise absint.Stuck("the in-progress set is not a table of names any more")
+                n1 = len([e for e in ev[ev0:] if e[0] == "instantiate"])
+                r2 = mc.run(f, [selfv2, located])
+                n2 = len([e for e in ev[ev0:] if e[0] == "instantiate"]) - n1
+                rows.append((key + "/then-again-during-the-same-declaration", {"result": r1, "second_result": r2, "n1": n1, "n2": n2, "inst": inst,
+                                                                              "events": ev[ev0:], "cached": [], "factory": factory, "error": E,
+                                                                              "registered": 1, "not_found": NF, "other_inst": other_inst}))
+            except (absint.Stuck, absint.Loop) as e:
+                rows.append((key + "/then-again-during-the-same-declaration", {"stuck": str(e)}))
+            del ev[ev0:]
         try:
             res = mc.run(f, [selfv, located])
         except (absint.Stuck, absint.Loop) as e:
@@ -192,7 +221,15 @@ def rule_cache(ctx, rule_single, rule_negative):
             continue
         decided += 1
         res, n_inst = d["result"], len([e for e in d["events"] if e[0] == "instantiate"])
-        if scenario == "first":
+        if key.endswith("/then-again-during-the-same-declaration"):
+            r2 = d["second_result"]
+            good = getattr(res, "name", None) == "Ok" and getattr(r2, "name", None) == "Ok" and contains_id(res, d["inst"]) and \
+                contains_id(r2, d["inst"]) and d["n1"] == 1 and d["n2"] == 0
+            msg = "a library requested while its own load is marked in progress (as every import declaration does) and requested again while " \
+                  "another library is being loaded is instantiated %d + %d time(s) (%r, then %r); expected one instantiation and the same " \
+                  "instance both times: two import sets of one declaration, or the importer and a library it imports, would otherwise " \
+                  "hold different instances of a stateful library" % (d["n1"], d["n2"], res, r2)
+        elif scenario == "first":
             good = getattr(res, "name", None) == "Ok" and contains_id(res, d["inst"]) and n_inst == 1 and any(x is d["inst"] for x in d["cached"]) and \
                 all(e[1] is d["factory"] or contains_id(e[1], d["factory"]) for e in d["events"] if e[0] == "instantiate")
             msg = "the first import of a registered library instantiates %d time(s), caches %s and yields %r; expected one instantiation from the " \
